@@ -212,6 +212,11 @@ func (p *Plugin) outcome(outctx ocr3types.OutcomeContext, query types.Query, aos
 	// to do the minimum necessary number of aggregations (one per stream/aggregator
 	// pair) and re-use the same result, in case multiple channels share the
 	// same stream/aggregator pair.
+	//
+	// A failed aggregation stores nothing, so the pairs already attempted are
+	// tracked separately; otherwise a pair that cannot be aggregated would be
+	// re-aggregated for every channel (and every duplicate) that mentions it.
+	attempted := make(map[llotypes.Stream]struct{})
 	for cid, cd := range outcome.ChannelDefinitions {
 		for _, strm := range cd.Streams {
 			sid, agg := strm.StreamID, strm.Aggregator
@@ -241,7 +246,11 @@ func (p *Plugin) outcome(outctx ocr3types.OutcomeContext, query types.Query, aos
 				}
 			}
 
-			// Perform the aggregation
+			// Perform the aggregation (once per pair, whether or not it succeeds)
+			if _, tried := attempted[strm]; tried {
+				continue
+			}
+			attempted[strm] = struct{}{}
 			aggF := GetAggregatorFunc(agg)
 			if aggF == nil {
 				return nil, fmt.Errorf("no aggregator function defined for aggregator of type %v", agg)
